@@ -49,6 +49,8 @@ type Lab struct {
 	total    int64
 	Time     time.Time
 	Proposer sdk.Address
+	Evidence []abci.Evidence // byzantine validators reported in the next BeginBlock (then cleared)
+	Votes    []abci.VoteInfo // last-commit votes reported in every BeginBlock until changed
 }
 
 func New(n *chain.Node, chainID string, proposer sdk.Address) *Lab {
@@ -86,7 +88,8 @@ func (l *Lab) Begin(txs [][]byte) {
 		LastBlockId: abci.BlockID{Hash: n.LastBlockID.Hash, PartsHeader: abci.PartSetHeader{Total: int32(n.LastBlockID.PartsHeader.Total), Hash: n.LastBlockID.PartsHeader.Hash}},
 		AppHash: n.AppHash, ProposerAddress: []byte(l.Proposer), DataHash: blk.Header.DataHash, LastCommitHash: blk.Header.LastCommitHash,
 		ValidatorsHash: blk.Header.ValidatorsHash, NextValidatorsHash: blk.Header.NextValidatorsHash, ConsensusHash: blk.Header.ConsensusHash}
-	n.App.BeginBlock(abci.RequestBeginBlock{Hash: bid.Hash, Header: l.hdr})
+	n.App.BeginBlock(abci.RequestBeginBlock{Hash: bid.Hash, Header: l.hdr, ByzantineValidators: l.Evidence, LastCommitInfo: abci.LastCommitInfo{Votes: l.Votes}})
+	l.Evidence = nil
 	l.H, l.bid = h, bid
 	l.batch = txindex.NewBatch(int64(len(txs)))
 	l.blockTxs = nil
